@@ -19,6 +19,9 @@ import MinLex.Props.LemireSound
 import MinLex.Props.NoAllOnes
 import MinLex.Props.SlowPath
 import MinLex.Props.C04
+import Mathlib.Tactic.Ring
+import Mathlib.Tactic.Linarith
+import Mathlib.Tactic.Positivity
 namespace MinLex.Compose
 open MinLex MinLex.Main
 
@@ -246,6 +249,115 @@ theorem openCompact_of_hyps (cfg : Cfg) (hc : cfg.compact = true) {F : FloatC}
       rw [← moderatePath_compact cfg hc] at hmp; exact h.modEst n v fp hd hn hmp
     modRange := fun n fp hn hmp => by
       rw [← moderatePath_compact cfg hc] at hmp; exact h.modRange n fp hn hmp }
+
+-- ------------------------------------------------------------------ decimal-value helpers (C06, C07)
+theorem ofDigits_replicate_zero (k : Nat) : ofDigits (List.replicate k 48) = 0 := by
+  induction k with
+  | zero => rfl
+  | succ k ih =>
+    rw [List.replicate_succ', MinLex.ofDigits_append, ih]
+    rfl
+
+/-- all digits `'0'` ⇒ the digit string denotes 0 -/
+theorem ofDigits_all_zero {ds : List UInt8} (h : ∀ c ∈ ds, c = 48) : ofDigits ds = 0 := by
+  have : ds = List.replicate ds.length 48 := List.eq_replicate_iff.2 ⟨rfl, h⟩
+  rw [this]; exact ofDigits_replicate_zero _
+
+/-- (C06 i) any number of appended fraction zeros does not change the value -/
+theorem digitsValue_append_zeros (int frac : List UInt8) (e : Int) (k : Nat) :
+    Q.eqv (digitsValue int (frac ++ List.replicate k 48) e) (digitsValue int frac e) := by
+  induction k with
+  | zero => simp only [List.replicate_zero, List.append_nil]; exact Q.eqv_refl _
+  | succ k ih =>
+    rw [List.replicate_succ', ← List.append_assoc]
+    exact Q.eqv_trans (MinLex.digitsValue_den_pos _ _ _) (MinLex.digitsValue_den_pos _ _ _)
+      (MinLex.digitsValue_den_pos _ _ _) (MinLex.digitsValue_append_zero int _ e) ih
+
+theorem rne_digitsValue_append_zeros (f : Fmt) (int frac : List UInt8) (e : Int) (k : Nat) :
+    rne f (digitsValue int (frac ++ List.replicate k 48) e) = rne f (digitsValue int frac e) :=
+  RneSpec.rne_congr f (MinLex.digitsValue_den_pos _ _ _) (MinLex.digitsValue_den_pos _ _ _)
+    (digitsValue_append_zeros int frac e k)
+
+theorem digitVal_pos {c : UInt8} (hd : isDigit c = true) (h0 : c ≠ 48) : 1 ≤ digitVal c := by
+  unfold isDigit at hd
+  unfold digitVal
+  simp only [Bool.and_eq_true, decide_eq_true_eq] at hd
+  have : c.toNat ≠ 48 := fun h => h0 (UInt8.toNat_inj.1 h)
+  omega
+
+/-- (C06 ii) a non-zero digit after arbitrarily many zeros makes the value strictly larger -/
+theorem digitsValue_sticky_lt (int frac : List UInt8) (e : Int) (k : Nat) {c : UInt8}
+    (hd : isDigit c = true) (h0 : c ≠ 48) :
+    Q.lt (digitsValue int frac e) (digitsValue int (frac ++ List.replicate k 48 ++ [c]) e) := by
+  rw [Q.lt_iff (MinLex.digitsValue_den_pos _ _ _) (MinLex.digitsValue_den_pos _ _ _),
+    digitsValue_toRat, digitsValue_toRat]
+  have hlen : (frac ++ List.replicate k 48 ++ [c]).length = frac.length + (k + 1) := by
+    simp only [List.length_append, List.length_replicate, List.length_cons, List.length_nil]; omega
+  have hdig : ofDigits (int ++ (frac ++ List.replicate k 48 ++ [c]))
+      = ofDigits (int ++ frac) * 10 ^ (k + 1) + digitVal c := by
+    have : int ++ (frac ++ List.replicate k 48 ++ [c]) = (int ++ frac) ++ (List.replicate k 48 ++ [c]) := by
+      simp only [List.append_assoc]
+    have hl2 : (List.replicate k 48 ++ [c]).length = k + 1 := by
+      simp only [List.length_append, List.length_replicate, List.length_cons, List.length_nil]
+    rw [this, MinLex.ofDigits_append, MinLex.ofDigits_append (List.replicate k 48) [c],
+      ofDigits_replicate_zero, ofDigits_singleton, hl2, Nat.zero_mul, Nat.zero_add]
+  rw [hlen, hdig]
+  have hpos := digitVal_pos hd h0
+  have hz : (10:ℚ) ^ (e - ((frac.length + (k + 1) : Nat) : Int)) * (10:ℚ) ^ (k + 1)
+      = (10:ℚ) ^ (e - (frac.length : Int)) := by
+    rw [← zpow_natCast (10:ℚ) (k + 1), ← zpow_add₀ (by norm_num : (10:ℚ) ≠ 0)]
+    congr 1
+    push_cast; ring
+  have hp : (0:ℚ) < (10:ℚ) ^ (e - ((frac.length + (k + 1) : Nat) : Int)) := by positivity
+  have hd1 : (1:ℚ) ≤ (digitVal c : ℚ) := by exact_mod_cast hpos
+  rw [← hz]
+  generalize (10:ℚ) ^ (e - ((frac.length + (k + 1) : Nat) : Int)) = P at hp ⊢
+  have h3 : (0:ℚ) < (digitVal c : ℚ) * P := mul_pos (by linarith) hp
+  have h4 : (((ofDigits (int ++ frac) * 10 ^ (k + 1) + digitVal c : Nat) : ℚ)) * P
+      = (ofDigits (int ++ frac) : ℚ) * (P * (10:ℚ) ^ (k + 1)) + (digitVal c : ℚ) * P := by
+    push_cast; ring
+  rw [h4]
+  linarith
+
+/-- strictly above the midpoint of `b`, at most the next float: the result is `b + 1` -/
+theorem rne_above_mid (f : Fmt) {v : Q} (hv : 0 < v.den) {b : Nat} (hb : b + 1 < f.infBits)
+    (h1 : Q.lt (midpoint f b) v) (h2 : Q.le v (decodeQ f (b + 1))) : rne f v = b + 1 := by
+  have hm := midpoint_between f b
+  have hmd := midpoint_den_pos f b
+  by_cases hlt : Q.lt v (decodeQ f (b + 1))
+  · have hle : Q.le (decodeQ f b) v := by
+      rw [Q.le_iff (decodeQ_den_pos _ _) hv]
+      have := (Q.lt_iff hmd hv).1 h1
+      linarith [hm.1]
+    exact (MinLex.rne_of_between f hv (by omega) hle hlt).2.1 h1
+  · have heq : Q.eqv v (decodeQ f (b + 1)) := by
+      unfold Q.eqv; unfold Q.lt at hlt; unfold Q.le at h2; omega
+    rw [RneSpec.rne_congr f hv (decodeQ_den_pos _ _) heq, RneSpec.rne_decode f hb]
+
+/-- strictly below the midpoint of `b`, at least `b`: the result is `b` -/
+theorem rne_below_mid (f : Fmt) {v : Q} (hv : 0 < v.den) {b : Nat} (hb : b < f.infBits)
+    (h1 : Q.le (decodeQ f b) v) (h2 : Q.lt v (midpoint f b)) : rne f v = b := by
+  have hm := midpoint_between f b
+  have hmd := midpoint_den_pos f b
+  have hlt : Q.lt v (decodeQ f (b + 1)) := by
+    rw [Q.lt_iff hv (decodeQ_den_pos _ _)]
+    have := (Q.lt_iff hv hmd).1 h2
+    linarith [hm.2]
+  exact (MinLex.rne_of_between f hv hb h1 hlt).1 h2
+
+/-- exactly on the midpoint of `b`: the even one of `b`, `b + 1` -/
+theorem rne_on_mid (f : Fmt) (hM : 1 ≤ f.mbits) {v : Q} (hv : 0 < v.den) {b : Nat} (hb : b < f.infBits)
+    (h : Q.eqv v (midpoint f b)) : rne f v = if b % 2 = 0 then b else b + 1 := by
+  have hmd := midpoint_den_pos f b
+  have hm := midpoint_between f b
+  have h' := (Q.eqv_iff hv hmd).1 h
+  have h1 : Q.le (decodeQ f b) v := by
+    rw [Q.le_iff (decodeQ_den_pos _ _) hv, h']; exact hm.1.le
+  have h2 : Q.lt v (decodeQ f (b + 1)) := by
+    rw [Q.lt_iff hv (decodeQ_den_pos _ _), h']; exact hm.2
+  have := (MinLex.rne_of_between f hv hb h1 h2).2.2 h
+  rw [RneSpec.decode_parity f hM] at this
+  exact this
 
 theorem F32_fmt : Gen.F32.fmt = Fmt.f32 := rfl
 theorem F64_fmt : Gen.F64.fmt = Fmt.f64 := rfl
